@@ -1,6 +1,7 @@
 \* one run covers both modes: the initial state fixes `conf` (general mode / conforming-SCP mode)
 CONSTANTS
   Budget = 4
+  Cap = 2
 INIT Init
 NEXT Next
 CHECK_DEADLOCK FALSE
